@@ -71,7 +71,7 @@ def main():
         return 2
     t0 = time.time()
     try:
-        rc, o = sh(f'bin/gosym check {prop} --tier {tier}', cwd='/verif', timeout=7200)
+        rc, o = sh(f'GOSYM_EVIDENCE_DIR=/tmp/mut/evidence bin/gosym check {prop} --tier {tier}', cwd='/verif', timeout=7200)
     finally:
         sh('git -C /repo checkout -- .')
         sh('git -C /repo clean -fdq')
